@@ -479,6 +479,9 @@ class DatasetProcessor:
         logger.info("Processing experiment " + sample.prefix)
         logger.info("Experiment has " + proper_plural_form("BAM file", len(sample.file_list)) + ": " + ", ".join(
             map(lambda x: x[0], sample.file_list)))
+        if getattr(self.args, "auto_file_name_grouping", False):
+            # grouping was not requested by the user: only experiments that have several files are grouped by file name
+            self.args.read_group = "file_name" if len(sample.file_list) > 1 else None
         self.args.use_technical_replicas = self.args.read_group == "file_name" and len(sample.file_list) > 1
 
         self.all_read_groups = set()
